@@ -80,7 +80,6 @@ def check_handler_reask(chk):
 
 
 def run(chk, tier):
-    lib_ok = True
     import lib
     lib.use_repo()
     check_handler_reask(chk)
